@@ -8,7 +8,7 @@ namespace PGA.Drv.C08
 open Lean PGA PGA.Drv
 
 def errName : ReadErr → String
-  | .reader => "reader" | .notImplemented => "notImplemented" | .shape => "shape" | .internal => "internal"
+  | .reader => "reader" | .notImplemented => "notImplemented" | .shape => "shape"
 
 def consCounts (q : Query) : Json :=
   let all := q.atoms.flatMap (·.chain)
